@@ -100,7 +100,7 @@ class Options:
             # Parse out the key and value.
             value = "true"
             if "=" in opt:
-                opt, value = opt.split("=")
+                opt, value = opt.split("=", 1)
 
             # Save known, expected keys.
             if opt in cls.OPT_FLAGS:
